@@ -1,57 +1,77 @@
 ------------------------------ MODULE ProxyHdrMC ------------------------------
-(* Exhaustive check of ProxyHdr: every header kind below (real lengths, because the decision points
-   depend on them), three payload bytes, EVERY segmentation of the stream, every admissible close
-   timing.  The design machine must stay inside the relation (MachineOK).                      *)
+(* Exhaustive check of ProxyHdr: header descriptors ranging over the nibbles of the v2 version/command
+   and family/protocol bytes (valid and invalid values), declared lengths below / at / above each
+   family's address block, damaged signatures; v1 lines over protocol words, address/port classes,
+   missing and extra fields, damaged "PROXY ", over-long lines; no header at all -- each with three
+   following bytes, EVERY segmentation of the stream and every admissible close timing.  The module
+   ProxyHdr classifies each descriptor; the buffering design must stay inside the relation.      *)
 EXTENDS ProxyHdr, TLC
+CONSTANTS CN, FN, PN, LENS      \* nibble values and declared lengths enumerated for v2 (quick / thorough sets)
 
 A(t, h, p) == <<t, h, p>>
 RP == A("TCP", "10.0.0.2", "4321")
 RH == A("TCP", "10.0.0.1", "1234")
-S4 == A("TCP", "1.2.3.4", "1111")   D4 == A("TCP", "5.6.7.8", "2222")
-S6 == A("TCP", "::1", "1111")       D6 == A("TCP", "::2", "2222")
-SU == A("UNIX", "/a", "")           DU == A("UNIX", "/b", "")
-NA == A("", "", "")
+S == A("TCP", "1.2.3.4", "1111")
+D == A("TCP", "5.6.7.8", "2222")
+NoV2 == [sigbad |-> 0, vn |-> 0, cn |-> 0, fn |-> 0, pn |-> 0, len |-> 0]
+NoV1 == [w |-> 0, line |-> 0, toks |-> <<>>]
+R3 == <<1, 2, 3>>
 
-Valid(ver, hlen, hasaddr, s, d) ==
-    [valid |-> TRUE, ver |-> ver, hlen |-> hlen, hasaddr |-> hasaddr, src |-> s, dst |-> d,
-     rpeer |-> RP, rhost |-> RH, bad |-> 0, dec |-> 0, payload |-> <<1, 2, 3>>, total |-> hlen + 3]
-Invalid(ver, bad, dec, total) ==
-    [valid |-> FALSE, ver |-> ver, hlen |-> 0, hasaddr |-> FALSE, src |-> NA, dst |-> NA,
-     rpeer |-> RP, rhost |-> RH, bad |-> bad, dec |-> dec, payload |-> <<>>, total |-> total]
+C2(sb, vn, cn, fn, pn, len) ==
+    [ver |-> 2, v2 |-> [sigbad |-> sb, vn |-> vn, cn |-> cn, fn |-> fn, pn |-> pn, len |-> len], v1 |-> NoV1,
+     src |-> S, dst |-> D, rpeer |-> RP, rhost |-> RH, rest |-> R3, total |-> 16 + len + 3]
 
-Configs ==
-    {  Valid(1, 32, TRUE, S4, D4),      \* PROXY TCP4, short
-       Valid(1, 56, TRUE, S4, D4),      \* PROXY TCP4, longest
-       Valid(1, 104, TRUE, S6, D6),     \* PROXY TCP6, longest
-       Valid(1, 15, FALSE, NA, NA),     \* "PROXY UNKNOWN\r\n"
-       Valid(1, 107, FALSE, NA, NA),    \* PROXY UNKNOWN, longest allowed line
-       Valid(2, 16, FALSE, NA, NA),     \* v2 LOCAL, no address block
-       Valid(2, 28, TRUE, S4, D4),      \* v2 PROXY INET
-       Valid(2, 35, TRUE, S4, D4),      \* v2 PROXY INET + one TLV
-       Valid(2, 52, TRUE, S6, D6),      \* v2 PROXY INET6
-       Valid(2, 232, TRUE, SU, DU),     \* v2 PROXY UNIX
-       Valid(2, 21, FALSE, NA, NA) }    \* v2 PROXY UNSPEC with 5 ignored bytes
-  \cup
-    {  Invalid(0, 1, 16, 40),           \* not a PROXY stream at all
-       Invalid(1, 5, 30, 40),           \* "PROXZ ..." line of 30 bytes
-       Invalid(1, 10, 30, 40),          \* unknown protocol word
-       Invalid(1, 20, 20, 40),          \* TCP4 line ending after the first address
-       Invalid(1, 108, 108, 140),       \* no CRLF within 107 bytes
-       Invalid(2, 3, 16, 40),           \* signature damaged at byte 3
-       Invalid(2, 12, 16, 40),          \* signature damaged at byte 12
-       Invalid(2, 13, 16, 40),          \* version nibble not 2
-       Invalid(2, 13, 28, 40),          \* command nibble not LOCAL/PROXY
-       Invalid(2, 14, 28, 40),          \* family / protocol nibble undefined
-       Invalid(2, 16, 24, 40) }         \* declared length shorter than the family's address block
+T(c, p) == [cls |-> c, pos |-> p]
+\* a v1 line "PROXY " + tokens of 4 bytes each separated by one space + CRLF
+Toks(cs) == [j \in 1..Len(cs) |-> T(cs[j], 7 + 5 * (j - 1))]
+LineLen(cs) == 6 + 5 * Len(cs) - 1 + 2
+C1(w, cs, line) ==
+    [ver |-> 1, v2 |-> NoV2, v1 |-> [w |-> w, line |-> line, toks |-> Toks(cs)],
+     src |-> S, dst |-> D, rpeer |-> RP, rhost |-> RH, rest |-> R3,
+     total |-> (IF line = 0 THEN 120 ELSE line) + 3]
+
+V2Configs ==
+         {C2(0, 2, cn, fn, pn, len) : cn \in CN, fn \in FN, pn \in PN, len \in LENS}
+    \cup {C2(0, 2, 1, 3, pn, len) : pn \in {1, 2}, len \in {215, 216}}
+    \cup {C2(0, vn, 1, 1, 1, 12) : vn \in {0, 1, 3, 15}}
+    \cup {C2(sb, 2, 1, 1, 1, 12) : sb \in {2, 12}}
+
+Words == {"TCP4", "TCP6", "UNKNOWN", "junk"}
+Fields == {"ip4", "ip6", "port", "junk", "empty"}
+V1Configs ==
+         {C1(0, <<p>>, LineLen(<<p>>)) : p \in Words}
+    \cup {C1(0, <<p, a>>, LineLen(<<p, a>>)) : p \in Words, a \in Fields}
+    \cup {C1(0, <<p, a, b, "port", q>>, LineLen(<<p, a, b, "port", q>>)) :
+              p \in {"TCP4", "TCP6"}, a \in {"ip4", "ip6", "junk"}, b \in {"ip4", "ip6"}, q \in {"port", "junk"}}
+    \cup {C1(0, <<p, "ip4", "ip4", "port", "port", x>>, LineLen(<<p, "ip4", "ip4", "port", "port", x>>)) :
+              p \in {"TCP4", "UNKNOWN"}, x \in {"junk", "empty"}}
+    \cup {C1(w, <<"TCP4", "ip4", "ip4", "port", "port">>, 33) : w \in {2, 6}}
+    \cup {C1(0, <<"UNKNOWN">>, l) : l \in {15, 107, 108, 0}}
+    \cup {C1(0, <<"TCP4", "ip4", "ip4", "port", "port">>, 0)}
+
+Garbage == [ver |-> 0, v2 |-> NoV2, v1 |-> NoV1, src |-> S, dst |-> D, rpeer |-> RP, rhost |-> RH,
+            rest |-> <<>>, total |-> 40]
+
+Configs == V2Configs \cup V1Configs \cup {Garbage}
 
 Init == \E c \in Configs : InitWith(c)
 \* one named action per kind of step, so that the coverage report shows none of them is vacuous
-DeliverValidPartial == \E k \in 1..(cfg.total - consumed) : cfg.valid /\ consumed + k < cfg.total /\ Deliver(k, FALSE)
-DeliverValidLast    == \E k \in 1..(cfg.total - consumed) : cfg.valid /\ consumed + k = cfg.total /\ Deliver(k, FALSE)
-DeliverInvalidOpen  == \E k \in 1..(cfg.total - consumed) : ~cfg.valid /\ Deliver(k, FALSE)
-DeliverInvalidEarly == \E k \in 1..(cfg.total - consumed) : ~cfg.valid /\ consumed + k < cfg.dec /\ Deliver(k, TRUE)
-DeliverInvalidClose == \E k \in 1..(cfg.total - consumed) : ~cfg.valid /\ consumed + k >= cfg.dec /\ Deliver(k, TRUE)
+DeliverValidPartial == \E k \in 1..(cfg.total - consumed) : Valid /\ consumed + k < cfg.total /\ Deliver(k, FALSE)
+DeliverValidLast    == \E k \in 1..(cfg.total - consumed) : Valid /\ consumed + k = cfg.total /\ Deliver(k, FALSE)
+DeliverInvalidOpen  == \E k \in 1..(cfg.total - consumed) : ~Valid /\ Deliver(k, FALSE)
+DeliverInvalidEarly == \E k \in 1..(cfg.total - consumed) : ~Valid /\ consumed + k < Dec /\ Deliver(k, TRUE)
+DeliverInvalidClose == \E k \in 1..(cfg.total - consumed) : ~Valid /\ consumed + k >= Dec /\ Deliver(k, TRUE)
 Next == DeliverValidPartial \/ DeliverValidLast \/ DeliverInvalidOpen \/ DeliverInvalidEarly \/ DeliverInvalidClose
 Spec == Init /\ [][Next]_vars
 View == <<cfg, consumed, delivered, closed, mst>>
+
+\* the classification itself, spot-checked against the PROXY protocol specification's tables
+ClassifyOK ==
+    /\ (cfg.ver = 2 /\ V2.sigbad = 0 /\ V2.vn = 2 /\ V2.cn = 0 => Valid /\ ~HasAddr)                      \* LOCAL: always valid
+    /\ (cfg.ver = 2 /\ V2.sigbad = 0 /\ V2.vn = 2 /\ V2.cn = 1 /\ (V2.fn > 3 \/ V2.pn > 2) => ~Valid)    \* undefined nibble
+    /\ (cfg.ver = 2 /\ V2.cn > 1 => ~Valid)
+    /\ (cfg.ver = 2 /\ Valid /\ HasAddr => V2.len >= AddrLen(V2.fn))
+    /\ (cfg.ver = 1 /\ Valid => V1.line \in 1..107 /\ V1.w = 0)
+    /\ (cfg.ver = 1 /\ Valid /\ HasAddr => NT = 5)
+    /\ (cfg.ver = 0 => ~Valid)
 =============================================================================
